@@ -84,6 +84,25 @@ func runC13(r *vhlib.Run) {
 	// same scripted failing sinks, per call (Bzip2/WriterImpl.v, Meta/WriterImpl.v)
 	runWBZW(r)
 	runWMETAW(r)
+	// corpus of known finding D13: the sink is itself a CLOSED Writer of the same type; its error is the
+	// package's own "closed" sentinel, which the outer Writer latches verbatim - and then takes for its
+	// own closed state: the first Close reports the error, the second one nil
+	for _, wc := range wcodecs() {
+		var bb bytes.Buffer
+		inner := wc.New(&bb)
+		inner.Close()
+		outer := wc.New(inner)
+		outer.Write([]byte("hello"))
+		c1 := outer.Close()
+		c2 := outer.Close()
+		r.Eval("fault:closed-writer-as-sink:"+wc.Name, true, []byte(wc.Name))
+		if c1 != nil && c2 == nil {
+			r.Violate("sink-error-is-own-closed-sentinel", fmt.Sprintf("%s.Writer over a closed %s.Writer: Close returned %v, the next Close nil", wc.Name, wc.Name, c1),
+				map[string]interface{}{"writer": wc.Name, "sink": "a closed Writer of the same type", "ops": []string{"Write(hello)", "Close", "Close"}})
+		} else if c1 == nil {
+			r.Violate("close-false-success", wc.Name+": Close over a closed Writer of the same type returned nil", map[string]interface{}{"writer": wc.Name, "sink": "a closed Writer of the same type"})
+		}
+	}
 	nsched := 6
 	if !r.Quick() {
 		nsched = 60
